@@ -131,6 +131,9 @@ pub struct GenCfg {
     pub p_foreign: u64,
     /// layered: requirements only point to later packages (acyclic, deeper searches)
     pub layered: bool,
+    /// percent per package: a LARGE share (30..90 %) of the candidates is excluded (dozens to
+    /// hundreds of negative assertions in one solve)
+    pub p_exclmany: u64,
 }
 
 impl GenCfg {
@@ -139,7 +142,7 @@ impl GenCfg {
             npkg: 6, maxver: 4, maxreq: 3, p_con: 30, p_union: 15, p_unknown: 5, p_excl: 10,
             p_lock: 8, p_fav: 15, p_missing: 20, hints: 0, nsoft: 0, p_rootcon: 30, p_self: 0,
             p_dup: 0, p_extset: 10, p_empty: 8, p_rank: 20, p_softbias: 0, maxroot: 3,
-            p_foreign: 0, layered: false,
+            p_foreign: 0, layered: false, p_exclmany: 0,
         }
     }
     pub fn medium() -> Self {
@@ -177,7 +180,7 @@ impl GenCfg {
             npkg: 6, maxver: 4, maxreq: 3, p_con: 35, p_union: 20, p_unknown: 8, p_excl: 15,
             p_lock: 10, p_fav: 15, p_missing: 20, hints: 1, nsoft: 4, p_rootcon: 30, p_self: 12,
             p_dup: 10, p_extset: 15, p_empty: 8, p_rank: 25, p_softbias: 50, maxroot: 3,
-            p_foreign: 6, layered: false,
+            p_foreign: 6, layered: false, p_exclmany: 0,
         }
     }
     pub fn with_hints(mut self, h: u64) -> Self {
@@ -287,6 +290,15 @@ pub fn generate(r: &mut Rng, c: &GenCfg) -> (Universe, Prob) {
                 let s = *r.pick(&cands);
                 let st = u.string(if r.chance(1, 2) { "excluded" } else { "not for this platform" });
                 if !u.pkgs[pi].excluded.iter().any(|&(e, _)| e == s) {
+                    u.pkgs[pi].excluded.push((s, st));
+                }
+            }
+        }
+        if r.chance(c.p_exclmany, 100) {
+            let share = 30 + r.below(61);
+            let st = u.string("yanked");
+            for &s in &cands {
+                if r.chance(share, 100) && !u.pkgs[pi].excluded.iter().any(|&(e, _)| e == s) {
                     u.pkgs[pi].excluded.push((s, st));
                 }
             }
